@@ -86,7 +86,7 @@ CLAIMED.update({
          "tech": BT},
 })
 CLAIMED.update({
- "C01": {"cat": "other", "text": "Proved for all inputs along the chain CsvPath.next -> _consider_line -> Matcher.matches -> Expression.matches -> Equality.matches -> Function.matches: lines are yielded once, in file order, exactly when the verdict holds; the verdict is the AND/OR of the component votes taken left to right; Equality dispatches by operator once per line; '==' compares as written or as values; '->' runs its right side iff the left side matched, once per line; a function decides exactly once per line and errors go to the expression; a variable is an existence test (0 and '' exist); not/and/or/yes/no/length/exists/empty/add/multiply/concat/starts_with/strip/lower/upper and the strict / non-strict AboveBelow comparisons are the documented operators. Bounded: reference evaluation of 150 (thorough 3000) generated (csvpath, file) pairs in AND and OR mode.",
+ "C01": {"cat": "other", "text": "Proved for all inputs along the chain CsvPath.next -> _consider_line -> Matcher.matches -> Expression.matches -> Equality.matches -> Function.matches: lines are yielded once, in file order, exactly when the verdict holds; the verdict is the AND/OR of the component votes taken left to right; Equality dispatches by operator once per line; '==' compares as written or as values; '->' runs its right side iff the left side matched, once per line; a function decides exactly once per line and errors go to the expression; a variable is an existence test (0 and '' exist); not/and/or/yes/no/length/exists/empty/add/subtract/multiply/concat/substring/starts_with/strip/lower/upper, equals() (numbers; texts up to float parsing), between()/inside()/range()/from_to()/beyond()/outside() on numbers and stripped texts (bounds in either order, strict vs inclusive, a missing argument does not match), min_length()/max_length(), firstline()/firstscan()/firstmatch() and the strict / non-strict AboveBelow comparisons are the documented operators. Bounded: reference evaluation of 150 (thorough 3000) generated (csvpath, file) pairs in AND and OR mode.",
          "note": "Known findings (genuine, recorded, not repaired): lt()/below()/before() answer <= (numbers and strings); ordinal comparisons treat CSV cells as strings. The other leaf functions of the documented set (in, equals, subtract, divide, mod, substring, ...) and argument lists longer than two are covered by the bounded evaluator only; regex, dates, stats are not covered.",
          "tech": BT},
 })
